@@ -202,6 +202,26 @@ def gen_diseq_boundary(rng, n):
     return out
 
 
+def gen_widenthr(rng, n):
+    """scripted: a bound that grows between the two arguments of a widening with thresholds, with a
+    threshold beyond the new bound (the result must stop at the threshold), then further steps"""
+    out = []
+    for _ in range(n):
+        nv = rng.choice([1, 2, 3]); x = rng.randrange(nv)
+        lo = rng.randint(-5, 5); hi = lo + rng.randint(0, 3); d = rng.randint(1, 4)
+        up = rng.random() < 0.6
+        ths = sorted(set([(hi + d + rng.randint(0, 30)) if up else (lo - d - rng.randint(0, 30))] +
+                         [rng.choice([-100, -10, 0, 10, 100, 1000]) for _ in range(rng.randint(0, 2))]))
+        a = "assume 0 2 C le E 1 -1 %d %d C le E 1 1 %d %d" % (x, lo, x, -hi)
+        b = ("assume 1 2 C le E 1 -1 %d %d C le E 1 1 %d %d" % (x, lo, x, -(hi + d))) if up else \
+            ("assume 1 2 C le E 1 -1 %d %d C le E 1 1 %d %d" % (x, lo - d, x, -hi))
+        ops = [a, b, "widenthr 2 0 1 %d %s" % (len(ths), " ".join(map(str, ths))), "q_at 2",
+               "copy 0 2", "arith 1 %s %d %d k 1" % ("add" if up else "sub", x, x), "join 1 1 0",
+               "widenthr 2 0 1 %d %s" % (len(ths), " ".join(map(str, ths))), "q_at 2", "q_leq 1 2"]
+        out.append("hist 3 %d ; %s" % (nv, " ; ".join(ops)))
+    return out
+
+
 def gen(seed, tier, opts=None, n=None):
     rng = random.Random(seed)
     opts = dict(opts or {})
